@@ -236,7 +236,7 @@ fn pick_pool(rng: &mut Rng, allow_one: bool, flap: bool) -> Vec<u32> {
 }
 
 fn pick_content(rng: &mut Rng, pt: Pt) -> Content {
-    match rng.below(12) {
+    match rng.below(13) {
         0..=6 => Content::Random,
         7 => Content::Ramp,
         8 => Content::Checker,
@@ -249,7 +249,7 @@ fn pick_content(rng: &mut Rng, pt: Pt) -> Content {
         }
         _ => {
             if pt.has_alpha() {
-                Content::AlphaEdges
+                *rng.pick(&[Content::AlphaEdges, Content::AlphaEdges, Content::Opaque, Content::SparseAlpha, Content::SparseAlpha])
             } else {
                 Content::Random
             }
